@@ -207,11 +207,13 @@ func (r *Reporter) Finish() {
 		}
 		fmt.Printf("ENGINE-ERROR: property=%s %s\n", r.ID, e)
 	}
+	// a violation that was found (and re-validated by its check) decides the exit status even when some other part of the
+	// run could not be carried out; without one, an engine error means "not decided" (2)
 	switch {
-	case len(r.engineErr) > 0:
-		ExitCode = 2
 	case newViol > 0:
 		ExitCode = 1
+	case len(r.engineErr) > 0:
+		ExitCode = 2
 	}
 	fmt.Printf("RESULT property=%s tier=%s violations=%d known=%d engine_errors=%d wall=%.1fs\n", r.ID, Tier(), newViol, len(knownSeen), len(r.engineErr), time.Since(r.start).Seconds())
 }
